@@ -1,4 +1,5 @@
 import KG.Lemmas.Endpoints
+import KG.Gen.C14
 /-!
 # C14 — Round-robin: ready endpoints of a policy share its traffic evenly
 
@@ -171,6 +172,78 @@ theorem c14_strict_across_resyncs {s : State} {a : Abs} (h : Sim s a) (events : 
     strictOK (readyList s.eps us).length N (countPicked e.name e.gen (runEvents s events).2) = true := by
   rw [(runEvents_resyncs h events hev).1, hpicks]
   exact c14_strict s.eps us N s.lb e hk hnd he hwrap
+
+/-- **a probe that changes nothing moves no cursor**: status reports, `TriggerHealthCheck`, `EnsureGatewayHealthCheck` and
+    probes never write a cursor, and a probe whose report repeats the endpoint's current health leaves every ordered ready list
+    — every cursor key — as it is (the key is the list of ready *objects*; it does not depend on reason / message of the status). -/
+theorem c14_probe_keeps_cursors (s : State) (n : Name) (hv : Bool) :
+    (step s (.probeFire n hv)).1.lb = s.lb ∧ (step s (.updateStatus n hv)).1.lb = s.lb ∧
+    (step s (.trigger n)).1.lb = s.lb ∧ (step s (.ensure n)).1.lb = s.lb ∧
+    ((∀ e, load s.eps n = some e → e.healthy = hv) →
+      ∀ us, (readyList (step s (.probeFire n hv)).1.eps us).map EP.id = (readyList s.eps us).map EP.id) :=
+  ⟨step_lb_of_status_op s _ trivial, step_lb_of_status_op s _ trivial, step_lb_of_status_op s _ trivial,
+   step_lb_of_status_op s _ trivial, fun h us => probe_same_health_keeps_keys s n hv h us⟩
+
+/-! ## the traffic a policy FORWARDS when requests are authenticated with tokens — finding C14-auth-pick-shares-cursors
+
+The counting theorems above are about the picks that share a cursor.  A policy's traffic is only the *dispatched* picks; a
+token-authenticated request also makes the authenticator call `Manager.ClientFor` → `ClusterInfo.PickOne()` before it is
+dispatched (`Req`, `runReqs`).  Full statement: the endpoints `N` consecutive requests of a policy are forwarded to are
+floor/ceil, whatever `PickOne` calls come with them.  It holds iff `PickOne` keeps its own cursors (regenerated fact
+`Gen.C14.pickOneOwnCursors`); while `PickOne` draws from the policies' cursors it is **false**: witness below, on the real
+code 477/523 instead of 500/500 (findings/C14-auth-pick-shares-cursors). -/
+
+/-- the full statement for a `PickOne` of the given kind -/
+def ForwardedStrict (own : Bool) : Prop :=
+  ∀ (eps : List EP) (us : List Name) (lb lbA : List (Key × Nat)) (reqs : List Req) (e : EP),
+    (∀ r, r ∈ reqs → r.us = us) →
+    2 ≤ (readyList eps us).length → ((readyList eps us).map EP.id).Nodup → e ∈ readyList eps us →
+    lbGet lb ((readyList eps us).map EP.id) + 2 * reqs.length < 2 ^ 64 →
+    strictOK (readyList eps us).length reqs.length (countPicked e.name e.gen (runReqs own eps lb lbA reqs)) = true
+
+/-- the statement about the code as it is now -/
+def CodeForwardedStrict : Prop := ForwardedStrict Gen.C14.pickOneOwnCursors
+
+private theorem map_us_replicate (reqs : List Req) (us : List Name) (h : ∀ r, r ∈ reqs → r.us = us) :
+    reqs.map (·.us) = List.replicate reqs.length us := by
+  induction reqs with
+  | nil => rfl
+  | cons r rest ih =>
+    simp only [List.map_cons, List.length_cons, List.replicate_succ, h r (by simp)]
+    rw [ih (fun r' hr' => h r' (by simp [hr']))]
+
+/-- with its own cursors for `PickOne`, the forwarded traffic of a policy is strict round-robin whatever is authenticated -/
+theorem c14_forwarded_strict_own_cursors : ForwardedStrict true := by
+  intro eps us lb lbA reqs e hus hk hnd he hwrap
+  rw [runReqs_own, map_us_replicate reqs us hus]
+  exact c14_strict eps us reqs.length lb e hk hnd he (by omega)
+
+/-- partial, whatever `PickOne` does: requests that involve no `PickOne` (client certificates, anonymous) are strict -/
+theorem c14_forwarded_strict_partial (own : Bool) (eps : List EP) (us : List Name) (lb lbA : List (Key × Nat))
+    (reqs : List Req) (e : EP) (hus : ∀ r, r ∈ reqs → r.us = us) (hno : ∀ r, r ∈ reqs → r.authOrder = none)
+    (hk : 2 ≤ (readyList eps us).length) (hnd : ((readyList eps us).map EP.id).Nodup) (he : e ∈ readyList eps us)
+    (hwrap : lbGet lb ((readyList eps us).map EP.id) + reqs.length < 2 ^ 64) :
+    strictOK (readyList eps us).length reqs.length (countPicked e.name e.gen (runReqs own eps lb lbA reqs)) = true := by
+  rw [runReqs_noAuth own eps lb lbA reqs hno, map_us_replicate reqs us hus]
+  exact c14_strict eps us reqs.length lb e hk hnd he hwrap
+
+/-- refutation by witness: two ready endpoints `a, b`, a policy with the subset `[a, b]`, two requests whose authentication
+    pick happened to iterate in the same order: both are forwarded to the same endpoint -/
+theorem c14_forwarded_shared_cursors_refuted : ¬ ForwardedStrict false := by
+  intro h
+  let a : EP := { newEP [97] 0 false with healthy := true }
+  let b : EP := { newEP [98] 0 false with healthy := true }
+  have := h [a, b] [[97], [98]] [] [] [⟨some [[97], [98]], [[97], [98]]⟩, ⟨some [[97], [98]], [[97], [98]]⟩] b
+    (by decide) (by decide) (by decide) (by decide) (by decide)
+  revert this
+  decide
+
+/-- where the current code stands: the full statement holds of it exactly when `PickOne` keeps its own cursors -/
+theorem c14_code_forwarded_strict_iff : CodeForwardedStrict ↔ Gen.C14.pickOneOwnCursors = true := by
+  unfold CodeForwardedStrict
+  cases Gen.C14.pickOneOwnCursors with
+  | true => exact ⟨fun _ => rfl, fun _ => c14_forwarded_strict_own_cursors⟩
+  | false => exact ⟨fun h => absurd h c14_forwarded_shared_cursors_refuted, fun h => by cases h⟩
 
 /-- **concurrent pickers**: for every schedule (interleaving of the threads' atomic actions) that lets all `n` pickers
     finish, the order `log` of their atomic adds is a permutation of the pickers, each picker's result is exactly what the
